@@ -127,14 +127,40 @@ Proof.
 Qed.
 Print Assumptions C12_python_format_type.
 
-(* Python, the file - PARTIAL: every name the declarations of the body use (type names of the fixed
-   vocabulary at any depth, BaseModel / Generic / ConfigDict / Field / Annotated / BeforeValidator /
-   PlainSerializer / Enum / Literal / Union of the templates, the TypeVars of class headers) is defined or
-   imported by the header, OR is a generic parameter name of the program, OR one of the four
-   (de)serialiser function names.  Not yet proved (hence partial): outside C12-python-alias-typevar every
-   generic parameter name has its TypeVar; outside C12-python-default-translation the function names are
-   defined; the header's own uses (TypeVar, datetime in the helper functions).  The correspondence check
-   covers these on every generated case and the two classes have witness theorems below. *)
+(* Python, the WHOLE file (header + body): for every program and configuration outside the two classes
+   (C12-python-alias-typevar, C12-python-default-translation), every helper name the generated file
+   uses - in the body: type names of the fixed vocabulary at any depth, BaseModel / Generic / ConfigDict /
+   Field / Annotated / BeforeValidator / PlainSerializer / Enum / Literal / Union of the templates, the
+   generic parameters of class headers, alias heads and types, the (de)serialiser functions an Annotated
+   field names; in the header (written AFTER the body from the state it left): TypeVar of the
+   `T = TypeVar("T")` lines, datetime inside the datetime helper functions - is imported, declared as a
+   TypeVar or defined as a helper function by that header.  dom: no user type name / generic parameter is
+   a word of the helper vocabulary, no type_mappings value is the text `datetime`. *)
+Theorem C12_python :
+  forall (uc : unicode) (cfg : py_config) (pd : parsed) (uses defs : list str),
+    c12_py_observe uc cfg pd = Ok (uses, defs) -> c12_py_dom cfg (items_of pd) = true ->
+    c12_py_known cfg pd = None ->
+    c12_good uses defs = true.
+Proof. exact Proofs.C12.c12_python. Qed.
+Print Assumptions C12_python.
+
+(* the hypotheses are satisfiable on an input that exercises every half: generic struct + generic alias
+   sharing T, serde(default) OffsetDateTime next to a plain one, serde(default) Vec<u8> mapped to bytes
+   whose plain text is registered by the formatter two levels deep *)
+Theorem C12_python_nonvacuous :
+  c12_py_known Proofs.C12.c12_py_cfg1 Proofs.C12.c12_py_full_pd = None /\
+  c12_py_dom Proofs.C12.c12_py_cfg1 (items_of Proofs.C12.c12_py_full_pd) = true /\
+  exists uses defs, c12_py_observe uc_exec Proofs.C12.c12_py_cfg1 Proofs.C12.c12_py_full_pd = Ok (uses, defs) /\
+                    In (lit "T") uses /\ In (lit "TypeVar") uses /\ In (lit "parse_rfc3339") uses /\
+                    In (lit "deserialize_binary_data") uses /\ In (lit "datetime") uses /\
+                    c12_good uses defs = true.
+Proof. exact Proofs.C12.c12_python_file_nonvacuous. Qed.
+Print Assumptions C12_python_nonvacuous.
+
+(* Python, the body alone, with NO class hypothesis (kept from before C12_python; partial): every name the
+   declarations of the body use is defined or imported by the header, OR is a generic parameter name of
+   the program, OR one of the four (de)serialiser function names.  The two "OR"s are exactly what the two
+   classes decide; C12_python above closes them and adds the header's own uses. *)
 Theorem C12_python_body_partial :
   forall (uc : unicode) (cfg : py_config) (pd : parsed) (ds : list py_decl) (st : py_state),
     py_decls uc cfg pd = Ok (ds, st) -> c12_py_dom cfg (items_of pd) = true ->
